@@ -534,12 +534,9 @@ func tryReplayModel(res *Result, repoDir, scratch string) *ReplayInfo {
 	_ = os.WriteFile(file, []byte(b.String()), 0644)
 	var out string
 	var solver string
-	for _, s := range []string{"z3-new", "z3", "cvc5"} {
-		ctx, cancel := context.WithTimeout(context.Background(), 25*time.Second)
-		args := []string{"-T:20", file}
-		if s == "cvc5" {
-			args = []string{"--tlimit=20000", "--strings-exp", file}
-		}
+	for _, s := range []string{"z3-new", "z3"} {
+		ctx, cancel := context.WithTimeout(context.Background(), 12*time.Second)
+		args := []string{"-T:8", file}
 		cmd := exec.CommandContext(ctx, s, args...)
 		var ob bytes.Buffer
 		cmd.Stdout = &ob
